@@ -22,6 +22,8 @@ import (
 	"sync"
 	"time"
 
+	"verifharness/hook"
+
 	"github.com/Comcast/sheens/core"
 	"github.com/Comcast/sheens/crew"
 	"github.com/Comcast/sheens/sio"
@@ -118,7 +120,7 @@ func (h *harness) boot(from map[string]*crew.Machine) {
 func newHarness(gated bool) *harness {
 	h := &harness{rec: &recorder{t0: time.Now()}, inst: map[*sio.TimerEntry]int{}, ctl: map[int]*inst{}, at: map[int]time.Time{},
 		freeRun: !gated, shadow: map[string]*crew.Machine{}}
-	sio.VerifHook = func(point string, args ...interface{}) {
+	hook.Set(func(point string, args ...interface{}) {
 		switch point {
 		case "timer-added":
 			h.Lock()
@@ -141,7 +143,7 @@ func newHarness(gated bool) *harness {
 			c.arrived <- point
 			<-c.release
 		}
-	}
+	})
 	h.boot(nil)
 	return h
 }
